@@ -43,6 +43,21 @@ def drv(v, key, reuse, encl_int, default, with_remove):
     return (se, me, ss, ms, e.fields[0].value, st.value, len(lib.blocks), late.value)
 
 
+def drv_reuse(v1, v2, key, reuse, encl_int, default):
+    """one Remove and one Add instance on two libraries in a row; the second must come out as from fresh instances"""
+    def run(rm, add, v):
+        e = Entry("article", "k", [Field(key, v), Field("other", v)])
+        st = String("s", v)
+        lib = add.transform(rm.transform(Library([e, st])))
+        return [f.value for f in e.fields], st.value, len(lib.blocks)
+    mk_add = lambda: AddEnclosingMiddleware(reuse_previous_enclosing=reuse, enclose_integers=encl_int,
+                                            default_enclosing=default, allow_inplace_modification=True)
+    rm, add = RemoveEnclosingMiddleware(True), mk_add()
+    first = run(rm, add, v1)
+    second = run(rm, add, v2)
+    return first, run(RemoveEnclosingMiddleware(True), mk_add(), v1), second, run(RemoveEnclosingMiddleware(True), mk_add(), v2)
+
+
 def esc_balanced(v, quote_default):
     depth = 0
     esc = False
@@ -310,6 +325,38 @@ def task_reparse(L, default, prefix=""):
     return rec.result(worlds=len(worlds))
 
 
+def task_reuse(L1, L2, key, reuse, encl_int, default):
+    eng = Engine()
+    rec = Recorder(eng)
+    v1, g1 = sym_value(eng, L1)
+    v2 = mk([eng.sym_char(f"d{i}", SIGMA) for i in range(L2)])
+    g2 = True
+    if L2 >= 1:
+        g2 = b_all([b_not(ch_eq(chars(v2)[0], " ")), b_not(ch_eq(chars(v2)[-1], " ")), b_not(ch_eq(chars(v2)[0], "\n")), b_not(ch_eq(chars(v2)[-1], "\n"))])
+    E = eng.I.models.eq_simple
+    worlds = eng.run(drv_reuse, [v1, v2, key, reuse, encl_int, default], guard=b_and(g1, g2))
+
+    def rp(m):
+        import logging
+        logging.disable(logging.CRITICAL)
+        a, b = eng.model_str(m, v1), eng.model_str(m, v2)
+        try:
+            r1, f1, r2, f2 = drv_reuse(a, b, key, reuse, encl_int, default)
+        except Exception as ex:  # noqa
+            return {"input": [a, b, key, reuse, encl_int, default], "observed": f"raised {type(ex).__name__}: {ex}", "expected": "no exception"}
+        if r1 == f1 and r2 == f2:
+            return None
+        return {"input": [a, b, key, reuse, encl_int, default], "observed": {"second library through the same instances": r2}, "expected": f2}
+    for W in worlds:
+        if W.exc is not None:
+            rec.require(W, True, "reuse-no-exception", rp)
+            continue
+        r1, f1, r2, f2 = W.result
+        rec.require(W, b_not(b_and(E(r1, f1), E(r2, f2))), "instance-holds-no-state", rp)
+        rec.witness("instance-reused", W)
+    return rec.result(worlds=len(worlds))
+
+
 def main():
     chk = Check("C10", __doc__)
     LS, LR = (6, 7) if chk.tier == "quick" else (8, 8)
@@ -319,7 +366,7 @@ def main():
     chk.assumptions = ["values contain only the alphabet characters; '1' is the only digit",
                        "re-parse clause: brace balance is escape-aware (a backslash escapes the next character), value must not end in an unescaped backslash, and for the quote default contains no bare quote at depth 0 - as in the statement",
                        "integer rule: 'digit strings' are str.isdigit() strings over the alphabet (ASCII '1'; '1_1' and the like are not digit strings)"]
-    chk.expected_vacuity = ["stripped-{", 'stripped-"', "digits-left-unenclosed", "int-left-unenclosed", "balanced-value-reparsed"]
+    chk.expected_vacuity = ["stripped-{", 'stripped-"', "digits-left-unenclosed", "int-left-unenclosed", "balanced-value-reparsed", "instance-reused"]
     for key, reuse, encl_int, default, with_remove in itertools.product(("year", "title"), (True, False), (True, False), ("{", '"'), (True, False)):
         for L in range(LS, -1, -1):
             chk.add_task(f"str-{key}-r{int(reuse)}-i{int(encl_int)}-{default}-rm{int(with_remove)}-L{L}", task_str, L=L, key=key,
@@ -333,6 +380,11 @@ def main():
             for L in (2, 1):
                 chk.add_task(f"str-{key}-r{int(reuse)}-i{int(encl_int)}-{default}-rm1-L{L}", task_str, L=L, key=key,
                              reuse=reuse, encl_int=encl_int, default=default, with_remove=True)
+    chk.bounds["one instance, two libraries"] = "Remove + Add instances applied to two libraries in a row, values of length 0..3 and 0..3, all option combinations, key year / title"
+    for key, reuse, encl_int, default in itertools.product(("year", "title"), (True, False), (True, False), ("{", '"')):
+        for L1, L2 in ((3, 3), (2, 3), (1, 2), (0, 1), (2, 0)):
+            chk.add_task(f"reuse-{key}-r{int(reuse)}-i{int(encl_int)}-{default}-{L1}+{L2}", task_reuse, L1=L1, L2=L2, key=key,
+                         reuse=reuse, encl_int=encl_int, default=default)
     for default in ("{", '"'):
         for L in range(LR, -1, -1):
             if L >= LR - 1 and L >= 2:
